@@ -2,6 +2,7 @@
    segments lie inside the clip (no float clipping on that route). *)
 From Coq Require Import ZArith Bool List.
 From TS Require Import Base.F32 Model.Rect Model.IntRect Model.RectRound Model.PathBuilder Model.Conic Model.RunC14 Model.Edge Model.Hairline Model.LineClip.
+From TS Require Model.HairlineAA.
 Import ListNotations.
 Local Open Scope Z_scope.
 
@@ -80,6 +81,28 @@ Definition run_hair_spans (l : list Z) : list Z :=
                 match hair_all w h segs with
                 | None => [-2]
                 | Some bl => flat_map (fun b => [fst b; snd b]) bl
+                end
+          end
+      end
+  | _ => [-3]
+  end.
+
+(* args: w h <builder ops> -> x y alpha triples of the anti-aliased butt-cap hairline (per-pixel contributions with alpha > 0,
+   in emission order); -9 = outside this model (curves), -2 = a panic *)
+Definition run_hair_aa (l : list Z) : list Z :=
+  match l with
+  | w :: h :: ops =>
+      match finish (run_ops push_path from_points (S (length ops)) new_builder ops) with
+      | None => [-8]
+      | Some p =>
+          match hair_segments (pverbs p) (ppoints p) zero_pt zero_pt with
+          | None => [-9]
+          | Some segs =>
+              if negb (hair_path_visible p w h) then []
+              else
+                match HairlineAA.anti_hair_all w h segs with
+                | None => [-2]
+                | Some bl => flat_map (fun b => [fst (fst b); snd (fst b); snd b]) bl
                 end
           end
       end
